@@ -1738,9 +1738,38 @@ Proof.
 Qed.
 
 Lemma refill_ok_sound size evs final : refill_ok size evs final = true ->
-  map conn_shard (concat (rf_conns (pool_run size evs))) = final /\
-  (rf_is_full size (pool_run size evs) = true -> rf_excess (pool_run size evs) = []).
+  map conn_shard (concat (rf_conns (pool_run size evs))) = final.
 Proof.
-  unfold refill_ok. intros H. apply andb_true_iff in H. destruct H as [H1 _].
-  split; [now apply list_eqb_spec|apply pool_run_trimmed].
+  unfold refill_ok. intros H. apply andb_true_iff in H. destruct H as [H1 _]. now apply list_eqb_spec.
+Qed.
+
+(* no usable owner in the SPECIFICATION's sense => the model has no replica candidate (so
+   C12_no_replica_nodes applies): the link between "no live permitted replica" and replica_cands *)
+Theorem no_usable_owner_no_cands cl cfg st values k t s rq :
+  sorted_weak (c_ring cl) -> keys_ok cl ->
+  ((exists tt, Tablets.find_table (c_tablets cl) k = Some tt) -> tablets_coherent cl) ->
+  st_table st = Some k ->
+  PartKey.ps_calculate_token true (st_part st) (st_ncols st) (st_wire st) values = Ok (Some t) ->
+  pol_token_aware (ex_pol cfg) = true ->
+  ks_lookup (c_keyspaces cl) (fst k) = Some s ->
+  routing_request st cfg values = Ok rq ->
+  (forall r, In r (owners cl k t s) -> usable cl (ex_pol cfg) rq (fst r) = false) ->
+  replica_cands cl cfg rq (route_source cl (ex_pol cfg) rq (st_table st)) = [].
+Proof.
+  intros Hs Hk Hco Hst Htok Hta Hks Hrq Hno.
+  destruct (routing_request_ok _ _ _ _ Hrq) as (tok & Htok' & Hrt & Hrk & _ & _).
+  rewrite Htok in Htok'. injection Htok' as <-.
+  assert (Hts : token_strategy (c_keyspaces cl) (ex_pol cfg) rq = Some (t, s)).
+  { unfold token_strategy. rewrite Hta, Hrt, Hrk, Hst. cbn [option_map fst]. now rewrite Hks. }
+  unfold route_source. rewrite Hts, Hst.
+  assert (G : forall src, (forall c x,
+              (In x (src_iter src c) <-> In x (owners cl k t s) /\ (forall d, crit_dc c = Some d -> in_dc (c_dcf cl) d (fst x) = true)) /\
+              (In x (src_ordered src c) <-> In x (src_iter src c))) ->
+            replica_cands cl cfg rq (Some src) = []).
+  { intros src Hsrc. destruct (replica_cands cl cfg rq (Some src)) as [|x rest] eqn:E; [reflexivity|].
+    destruct (replica_cands_sound cl cfg rq src (owners cl k t s) Hsrc x rest E x (or_introl eq_refl)) as (Ho & Hu & _).
+    rewrite (Hno x Ho) in Hu. discriminate. }
+  destruct (Tablets.find_table (c_tablets cl) k) as [tt|] eqn:Eft.
+  - apply G. apply (tablet_source_ok cl k t s tt); [apply Hco; eauto|assumption].
+  - apply G. apply (ring_source_ok cl k t s Hs (Hk _ _ Hks) Eft).
 Qed.
